@@ -212,11 +212,11 @@ Qed.
 Lemma call_op_events tag op pm tm_ st :
   match call_op tag op pm tm_ st with
   | (st', evs, ok) =>
-      evs = [] \/ exists e ws, evs = [e] /\ e_tag e = tag /\ e_t e = p_t st /\ somes (p_work st) = Some ws /\
+      (evs = [] /\ ok = false) \/ exists e ws, evs = [e] /\ e_tag e = tag /\ e_t e = p_t st /\ somes (p_work st) = Some ws /\
                                e_roots e = (if pm then ws ++ [p_mcfg st] else ws) /\ e_dat e = snap (p_heap st) (e_roots e)
   end.
 Proof.
-  unfold call_op. destruct (somes (p_work st)) as [ws|]; [|now left].
+  unfold call_op. destruct (somes (p_work st)) as [ws|]; [|left; now split].
   set (r := op _ _ _ _ _). destruct (r_ok r); [destruct (assign _ _)|]; right; eexists; exists ws; cbn; repeat split; reflexivity.
 Qed.
 
@@ -227,7 +227,7 @@ Proof.
   intros Hop Hpm Htm Ht st Hi. pose proof (call_op_inv tag op mc pm tm_ mv lo Hop Hpm Htm st Hi) as H1.
   pose proof (call_op_events tag op pm tm_ st) as H2.
   destruct (call_op tag op pm tm_ st) as [[st' evs] ok]. destruct H1 as [I W]. split; [exact I|]. split; [exact W|].
-  destruct H2 as [->|(e & ws & -> & E1 & E2 & _)]; constructor; [|constructor].
+  destruct H2 as [[-> _]|(e & ws & -> & E1 & E2 & _)]; constructor; [|constructor].
   intros Etag Et. exfalso. destruct Hi as (_ & _ & T & _). rewrite E1 in Etag. specialize (Ht Etag). lia.
 Qed.
 
@@ -354,7 +354,7 @@ Proof.
   pose proof (call_op_events T_EVAL op false false st1) as H2.
   destruct (call_op T_EVAL op false false st1) as [[st2 evs2] ok2]. destruct H1 as [I2' W2]. rewrite orb_false_r in I2'.
   split; [exact I2'|]. split; [exact W2|]. constructor; [apply Qreset|].
-  destruct H2 as [->|(e & ws & -> & E1 & E2 & E3 & E4 & E5)]; constructor; [|constructor].
+  destruct H2 as [[-> _]|(e & ws & -> & E1 & E2 & E3 & E4 & E5)]; constructor; [|constructor].
   intros _ _.
   destruct (Hok eq_refl ltac:(lia)) as (ds' & Hf & HF2).
   rewrite firstn_all_eq in Hf by lia. unfold st1 in E3, E4, E5; cbn in E3, E4, E5.
